@@ -74,6 +74,30 @@ Definition herr_code (e : herr) : N * Z :=
 Definition sizes_ok (max_msg : Z) (l : list bytes) : bool :=
   forallb (fun b => (1 <=? len b) && (len b <=? max_msg)) l.
 
+(* the judge's own reading of a binary batch, limits aside: a positive count, then that many
+   length-prefixed non-empty bodies, all of them present (bytes after the batch are not
+   looked at).  A count above the number of input bytes cannot be honoured. *)
+Fixpoint spell_msgs (n : nat) (s : bytes) : option (list bytes) :=
+  match n with
+  | O => Some []
+  | S n' =>
+      if len s <? 4 then None
+      else
+        let k := i32_of_u32 (be_dec (firstn 4 s)) in
+        let s1 := skipn 4 s in
+        if (k <=? 0) || (len s1 <? k) then None
+        else match spell_msgs n' (skipn (Z.to_nat k) s1) with
+             | Some l => Some (firstn (Z.to_nat k) s1 :: l)
+             | None => None
+             end
+  end.
+
+Definition spell_batch (s : bytes) : option (list bytes) :=
+  if len s <? 4 then None
+  else
+    let c := i32_of_u32 (be_dec (firstn 4 s)) in
+    if (c <=? 0) || (c >? len s) then None else spell_msgs (Z.to_nat c) (skipn 4 s).
+
 (* ------------------------------------------------------------------ live paths *)
 Definition d_chan (d : dlv) : N := let '(c, _, _, _, _) := d in c.
 Definition d_ts (d : dlv) : Z := let '(_, t, _, _, _) := d in t.
@@ -209,8 +233,13 @@ Definition judge (c : case) : N :=
         if status =? 200 then
           (match kind, intent with
            | 2%N, 1%N => perm_eqb got want
-           | 2%N, _ => true          (* tampered batch: no independent reading of it *)
+           | 2%N, _ => true
            | _, _ => perm_eqb got spec
+           end) &&
+          (* a binary batch: what was delivered is what the request body spells out *)
+          (match kind with
+           | 2%N => match spell_batch body with Some l => perm_eqb got l | None => false end
+           | _ => true
            end) && sizes_ok max_msg got && (topic_count =? Z.of_nat (length got)) &&
           negb (intent =? 0)%N
         else
